@@ -48,6 +48,7 @@ let string_of_n = function N0 -> "0" | Npos p -> string_of_pos p
 let string_of_z = function Z0 -> "0" | Zpos p -> string_of_pos p | Zneg p -> "-" ^ string_of_pos p
 
 (* ---- printing ------------------------------------------------------------ *)
+let cur_mask : bool list ref = ref []
 let buf = Buffer.create 65536
 let pr s = Buffer.add_string buf s
 let pr_elem ((k, pl), p) =
@@ -76,7 +77,14 @@ let pr_out = function
   | OutOptE None -> pr "opte -"
   | OutOptE (Some e) -> pr "opte "; pr_elem e
   | OutList l -> pr "list "; pr_list "," pr_elem l
-  | OutScript l -> pr "script "; pr_list "," pr_sout l
+  | OutScript l ->
+      (* drop the outputs hidden inside nth / nth_back; outputs beyond the mask
+         (the final len of a len:* end) are always shown *)
+      let rec filt l m = match l, m with
+        | [], _ -> []
+        | x :: l', [] -> x :: filt l' []
+        | x :: l', b :: m' -> if b then x :: filt l' m' else filt l' m' in
+      pr "script "; pr_list "," pr_sout (filt l !cur_mask)
   | OutInvalid -> pr "invalid"
   | OutUnwound -> pr "unwound"
   | OutFault f -> pr "fault "; pr_fault f
@@ -138,11 +146,23 @@ let istep_of s = match split_colon s with
   | ["b"; w; pl] -> INextBack (upd_prio (opt_z w), upd_item (opt_z pl))
   | ["l"] -> ILen | ["s"] -> ISizeHint
   | _ -> raise (Bad ("istep " ^ s))
+(* [nth:K] / [nthb:K]: std's default nth / nth_back are K+1 calls of next /
+   next_back of which only the last result is returned: expanded here, with a
+   mask telling the printer which script outputs the caller sees *)
+let rec rep n x = if n <= 0 then [] else x :: rep (n - 1) x
+let id_next = INext ((fun p -> p), (fun i -> i))
+let id_back = INextBack ((fun p -> p), (fun i -> i))
+let expand_step s = match split_colon s with
+  | ["nth"; k] -> let k = int_of_string k in (rep (k + 1) id_next, rep k false @ [true])
+  | ["nthb"; k] -> let k = int_of_string k in (rep (k + 1) id_back, rep k false @ [true])
+  | _ -> ([istep_of s], [true])
 let script toks = match toks with
   | a :: e :: n :: rest ->
       let n = int_of_string n in
       if List.length rest <> n then raise (Bad "script length");
-      (adaptor_of a, List.map istep_of rest, iend_of e)
+      let ex = List.map expand_step rest in
+      cur_mask := List.concat (List.map snd ex);
+      (adaptor_of a, List.concat (List.map fst ex), iend_of e)
   | _ -> raise (Bad "script")
 
 (* predicate tables for retain: key -> (write, keep), with a default verdict *)
